@@ -192,3 +192,47 @@ def run(ctx, rep):
         rep.violation("C18.3", cons, "the stretch parameter is appended to the parent's own parameter list (not a copy): the parent gate's signature changes too", sg.loc())
     else:
         rep.violation("C18.3", cons, "the stretched gate does not get exactly one extra trailing FLOAT parameter", sg.loc())
+
+
+    # ------------------------------------------------------------ C18.4
+    rep.rule("C18.4", "each typed branch of Parameter.validate accepts exactly the annotated kinds its declared kind allows", floor=4)
+    ALLOWED = {"QUBIT": {"QUBIT", "NONE"}, "REGISTER": {"REGISTER", "NONE"}, "FLOAT": {"INT", "FLOAT", "NONE"}, "INT": {"INT", "FLOAT", "NONE"}}
+    pt = ix.cls("jaqalpaq.core.parameter.ParamType")
+    members = {k for k in pt.class_attrs if k.isupper()}
+    val = ix.find_method("jaqalpaq.core.parameter.Parameter", "validate")
+    top = [s_ for s_ in val.body if isinstance(s_, ast.If)]
+    x = top[-1] if top else None
+    while isinstance(x, ast.If):
+        kinds = [m.attr for m in ast.walk(x.test) if isinstance(m, ast.Attribute) and isinstance(m.value, ast.Name) and m.value.id == "ParamType" and m.attr in members]
+        if kinds and kinds[0] in ALLOWED:
+            K = kinds[0]
+            accepted = set()
+            for st in x.body:
+                for m in ast.walk(st):
+                    if isinstance(m, ast.Compare) and isinstance(m.left, ast.Attribute) and m.left.attr == "kind" and len(m.ops) == 1:
+                        listed = {a.attr for a in ast.walk(m.comparators[0]) if isinstance(a, ast.Attribute) and a.attr in members}
+                        if isinstance(m.ops[0], (ast.In, ast.Eq)):
+                            accepted |= listed
+                        elif isinstance(m.ops[0], (ast.NotIn, ast.NotEq)):
+                            accepted |= members - listed
+            cons = construct_of(val, f"accepted-kinds:{K}")
+            extra = accepted - ALLOWED[K]
+            missing = {K, "NONE"} - accepted
+            if extra:
+                rep.violation("C18.4", cons, f"a {K} parameter accepts annotated values of kind {sorted(extra)}: the call is accepted although the argument does not fit the parameter's declared kind", f"{val.path}:{x.lineno}")
+            elif missing:
+                rep.violation("C18.4", cons, f"a {K} parameter rejects annotated values of kind {sorted(missing)}", f"{val.path}:{x.lineno}")
+            else:
+                rep.ok("C18.4", cons, f"accepts annotated kinds {sorted(accepted)}", f"{val.path}:{x.lineno}")
+        x = x.orelse[0] if len(x.orelse) == 1 and isinstance(x.orelse[0], ast.If) else None
+
+    # ------------------------------------------------------------ C18.3 (idle twin of a stretched gate)
+    cons = construct_of(sg, "stretched-idle-parent")
+    copied_vars = {var for var, exprs in fl.defs.items() for v in exprs if isinstance(v, ast.Call) and isinstance(v.func, ast.Attribute) and v.func.attr == "copy" and any(k.arg == "parameters" for k in v.keywords)}
+    idle_calls = [n for n in walk_no_nested(sg.node) if isinstance(n, ast.Call) and IDLE in T.types_of(n)]
+    for n in idle_calls:
+        a0 = n.args[0] if n.args else None
+        if isinstance(a0, ast.Name) and a0.id in copied_vars:
+            rep.ok("C18.3", cons, f"`{ast.unparse(n)}` derives the idle twin from the stretched gate", f"{sg.path}:{n.lineno}")
+        else:
+            rep.violation("C18.3", cons, f"`{ast.unparse(n)}` derives the idle twin from `{ast.unparse(a0) if a0 is not None else '?'}`, not from the stretched copy: the stretched idle gate lacks the trailing stretch parameter", f"{sg.path}:{n.lineno}")
